@@ -38,9 +38,15 @@ SOURCES = {
     # two imported modules that both define helper(int) (different result types): whatever the verdict, it is the same every time
     "twolibs": "import \"liba\";\nimport \"libb\";\nexport function f(int a) -> float\n{\n  return helper(a) + 1;\n}\n",
     "twolibs_ok": "import \"liba\";\nimport \"libb\";\nexport function f(int a) -> float\n{\n  return onlya(a) + onlyb(a);\n}\n",
+    # the same mask stored through on vectors of different widths
+    "swzw4": "export function f(float4 p, float2 q) -> float4\n{\n  p.xy = q;\n  p.zw = q;\n  return p;\n}\n",
+    "swzw2": "export function f(float2 p, float2 q) -> float2\n{\n  p.xy = q;\n  return p;\n}\n",
+    "swzw3": "export function f(float3 p, float2 q) -> float3\n{\n  p.xy = q;\n  p.zx = q;\n  return p.zyx;\n}\n",
+    # a source that imports a library which exists in two versions (the request says which one is on disk)
+    "libdep": "import \"libc\";\nexport function f(int a) -> float\n{\n  return helper(a) + 1;\n}\n",
     "params_lb": "export function f(int level, int n) -> int\n{\n  int bias = n * 2;\n  bias += level;\n  return level + bias;\n}\n",
 }
-REQUESTS = [(n, {}) for n in SOURCES] + [(n, {"optimize": True}) for n in ("plain", "struct_a", "struct_b", "loop", "imp")] + \
+REQUESTS = [(n, {}) for n in SOURCES if n != "libdep"] + [("libdep", {"_lib": "v1"}), ("libdep", {"_lib": "v2"})] + [(n, {"optimize": True}) for n in ("plain", "struct_a", "struct_b", "loop", "imp")] + \
     [("wasmable", {"wasm": True}), ("plain", {"wasm": True}), ("wasmable", {"wasm": True, "optimize": True}), ("private3", {"wasm": True})]
 
 
@@ -78,17 +84,21 @@ def run(ctx, args):
     if not os.path.exists(os.path.join(cwd, "std.nslir")):
         raise common.Machinery("could not build std.nslir with nslc.py: " + p.stdout[-200:] + p.stderr[-200:])
     for name, text in (("liba", "export function helper(int a) -> int\n{\n  return a + 1;\n}\nexport function onlya(int a) -> int\n{\n  return a * 3;\n}\n"),
+                       ("libc_v1", "export function helper(int a) -> int\n{\n  return a * 2;\n}\n"),
+                       ("libc_v2", "export function helper(float a) -> float\n{\n  return a * 0.5;\n}\n"),
                        ("libb", "export function helper(int a) -> float\n{\n  return a * 0.5;\n}\nexport function onlyb(int a) -> float\n{\n  return a * 0.25;\n}\n")):
         open(os.path.join(cwd, name + ".nsl"), "w").write(text)
         p = subprocess.run([sys.executable, str(ctx.repo / "nslc.py"), name + ".nsl", "-o", name + ".nslir"], cwd=cwd, capture_output=True, text=True, env=dict(os.environ, PYTHONHASHSEED="0"))
         if not os.path.exists(os.path.join(cwd, name + ".nslir")):
             raise common.Machinery(f"could not build {name}.nslir with nslc.py: " + p.stdout[-200:] + p.stderr[-200:])
-    seeds_single = [0, 1, 2, 5, 7, 42, 1234] if quick else [0, 1, 2, 3, 4, 5, 6, 7, 10, 42, 1234, 99999]
+    seeds_single = [0, 1, 2, 5, 7] if quick else [0, 1, 2, 3, 4, 5, 6, 7, 10, 42, 1234, 99999]
     seeds_long = [0, 7] if quick else [0, 1, 7, 42]
     worker = str(common.VERIF / "harness" / "c18_worker.py")
     jobs = []
-    for h in hists:
-        for s in (seeds_single if len(h) == 1 else seeds_long):
+    for k, h in enumerate(hists):
+        for j, s in enumerate(seeds_single if len(h) == 1 else seeds_long):
+            if quick and len(h) > 1 and j > 0 and (k + ctx.seed) % 3 != 0:
+                continue            # quick tier: every history under the first hash seed, a third of them under the second one as well
             jobs.append((h, s, str(ctx.repo), cwd, worker))
     with ThreadPoolExecutor(16) as ex:
         outs = list(ex.map(replay, jobs))
